@@ -2,7 +2,8 @@
    plus the pieces shared by the server properties C04, C06, C08, C12.  The lead imports these. *)
 From Coq Require Import List Bool Arith NArith Lia.
 Import ListNotations.
-From TarpcV Require Import Base Transport TimerWheel Server ServerMon ServerFuel ServerContract.
+From TarpcV Require Import Base Transport TimerWheel Server ServerMon ServerFuel ServerContract
+     ServerSim ServerSim2 ServerSim3 ServerSim4 ServerState.
 
 (* ------------------------------------------------------------------------------------------ *)
 (* the scripted transport's fuel measure: the inbox length *)
@@ -92,4 +93,49 @@ Lemma C14_server_scripted : forall c t0 ops, c14s_ok ops (fst (srun c t0 ops)) =
 Proof.
   intros. unfold c14s_ok, srun. rewrite C14_server_total by exact scripted_tfuel_ok.
   cbn [andb]. apply C14_server_contract.
+Qed.
+
+(* ------------------------------------------------------------------------------------------ *)
+(* C11, server half (state form): for every transport and every op list, the deadline-timer queue
+   and the request table hold the same ids in every reachable state (no timer-only leak, no
+   entry without a timer), so the two gauges agree after every op. *)
+Lemma C11_server_timers_track_requests :
+  forall (T C : Type) (tp : transport T response cmsg) (ctl : T -> C -> T) (tfuel : T -> nat)
+         (c : cfg) (t0 : T) (ops : list (op C)),
+    let s := snd (run tp ctl tfuel c t0 ops) in
+    map fst (s_timers s) = map e_id (s_inflight s)
+    /\ forallb gauges_agree (fst (run tp ctl tfuel c t0 ops)) = true.
+Proof.
+  intros. unfold run in *. destruct (run_from_keys tp ctl tfuel c ops (init c t0)) as (A & B & _); [reflexivity|].
+  split; [exact A|exact B].
+Qed.
+
+(* C12 (a) as a trace property, for every transport: right after a request is yielded the channel
+   reports at most L in flight *)
+Lemma C12_server_yield_within_limit :
+  forall (T C : Type) (tp : transport T response cmsg) (ctl : T -> C -> T) (tfuel : T -> nat)
+         (c : cfg) (t0 : T) (ops : list (op C)),
+    forallb (yield_within (cfg_limit c)) (fst (run tp ctl tfuel c t0 ops)) = true.
+Proof.
+  intros. unfold run. destruct (run_from_keys tp ctl tfuel c ops (init c t0)) as (_ & _ & D); [reflexivity|exact D].
+Qed.
+
+(* C10, server half (state form): BaseChannel::poll_next ends (None) only when the transport has
+   reported end of stream and nothing is tracked; and it goes idle only with the server-side
+   cancel queue empty and no timer due *)
+Lemma C10_server_base_end :
+  forall (T : Type) (tp : transport T response cmsg) f (s s' : @sstate T),
+    base_poll_next tp f s = (PEnd, s') ->
+    s_fused s' = true /\ s_timers s' = [] /\ s_cancels s' = [].
+Proof.
+  intros T tp f s s' H. pose proof (base_complete tp _ _ _ _ H) as ((A & B) & D & E). auto.
+Qed.
+
+(* C09, server half (state form): dropping the channel sets the abort flag of every tracked
+   request; an aborted execute() never polls its handler again (ServerState.aborted_stops) *)
+Lemma C09_server_drop_aborts :
+  forall (T : Type) (s : @sstate T) e,
+    s_dropped s = false -> In e (s_inflight s) -> In (e_h e) (s_aborted (drop_channel s)).
+Proof.
+  intros T s e Hd He. unfold drop_channel. rewrite Hd. cbn. apply in_or_app. left. apply in_map. exact He.
 Qed.
